@@ -352,10 +352,20 @@ def qtt_case(draw):
     d = draw(st.integers(1, 3))
     rf, cf = [], []
     vec = draw(st.booleans())
+    size = [1]
+
+    def fact():
+        # the dense reference must stay small (27^6 entries would be 3 GB: the coverage-guided tier found that corner of the
+        # strategy within 400 executions): factors that would push the number of entries beyond 5e4 become 1
+        f = draw(FACT)
+        if size[0] * f > 50000:
+            f = 1
+        size[0] *= f
+        return f
     for _ in range(d):
         nf = draw(st.integers(1, 3))
-        rf.append([draw(FACT) for _ in range(nf)])
-        cf.append([1] * nf if vec else [draw(FACT) for _ in range(nf)])
+        rf.append([fact() for _ in range(nf)])
+        cf.append([1] * nf if vec else [fact() for _ in range(nf)])
     rows = [int(np.prod(f)) for f in rf]
     cols = [int(np.prod(f)) for f in cf]
     a = draw(gen.tt_spec(rows=rows, cols=cols, kind='given', max_rank=3))
